@@ -548,8 +548,8 @@ pub fn chain_step<S: Src, const START: u8, const PRE: u8, const OP: u8, const FL
     if FLAGS & 2 != 0 {
         vassert!("after the operation: calculated outcome follows the history", ch.calc_outcome() == model_outcome(&md));
     }
-    vcover!("a refused push (push harnesses)", OP == OP_OTHER || md.len() == base_len);
-    vcover!("an accepted push (push harnesses)", OP == OP_OTHER || md.len() > base_len);
+    vcover!("a refused push (groups that are never legal)", !(OP == KG_FOREIGN || OP == KG_NULL) || md.len() == base_len);
+    vcover!("an accepted push (other push harnesses)", OP == OP_OTHER || OP == KG_FOREIGN || OP == KG_NULL || md.len() > base_len);
     core::mem::forget(ch);
 }
 
@@ -578,13 +578,13 @@ pub fn chain_push_pop<S: Src, const START: u8, const PRE: u8, const OP: u8>(s: &
     let pc = s.below(13);
     vassert!("after push (+ pop): every per-piece set is the previous one", ch.last().piece(Cell::from_index(pc as usize)) == before.piece(Cell::from_index(pc as usize)));
     vassert!("after push (+ pop): length, repetition table size and outcome are the previous ones", ch.len() == len0 && unsafe { REP_N } == rep0 && !unsafe { REP_BAD_POP } && ch.outcome().is_none());
-    vcover!("accepted and popped", r.is_ok());
+    vcover!("accepted and popped", OP == KG_FOREIGN || OP == KG_NULL || r.is_ok());
     core::mem::forget(ch);
 }
 
 /// `==` of two chains after one symbolic push each <=> equal (start, moves, outcome)
-/// second start: 0 = same position, 1 = same squares but another half-move clock and move number,
-/// 2 = same squares without castling rights, 3 = another stated position
+/// second start: 0 = same position, 1 = same squares but another half-move clock,
+/// 2 = same squares without the mover's castling rights, 3 = another stated position
 fn variant_board(start: u8, variant: u8) -> Board {
     let b = start_board(start);
     let mut r = *b.raw();
@@ -592,11 +592,12 @@ fn variant_board(start: u8, variant: u8) -> Board {
         0 => b,
         1 => {
             r.move_counter = r.move_counter.wrapping_add(7);
-            r.move_number = r.move_number.wrapping_add(3);
             Board::try_from(r).unwrap()
         }
         2 => {
-            r.castling = CastlingRights::EMPTY;
+            // drop the rights of the side to move only
+            let keep = if r.side == Color::White { 12 } else { 3 };
+            r.castling = CastlingRights::from_index(r.castling.index() & keep);
             Board::try_from(r).unwrap()
         }
         _ => start_board((start + 1) % N_START),
@@ -649,7 +650,7 @@ pub fn chain_eq<S: Src, const START: u8, const KG: u8>(s: &mut S) {
     let want = m1.start().raw() == m2.start().raw() && m1.len() == m2.len() && m1.move_at(0) == m2.move_at(0) && m1.outcome == m2.outcome;
     vassert!("chains compare equal exactly when start, move list and outcome are equal", (c1 == c2) == want);
     vcover!("equal chains with a move", want && m1.len() == 1);
-    vcover!("different starts whose current positions coincide after the same move", !want && m1.len() == 1 && m2.len() == 1 && m1.move_at(0) == m2.move_at(0)
+    vcover!("different starts whose current positions coincide after the same move (pawn / king groups)", !(KG == KG_PAWN || KG == KG_KING) || !want && m1.len() == 1 && m2.len() == 1 && m1.move_at(0) == m2.move_at(0)
         && m1.outcome == m2.outcome && m1.cur().raw() == m2.cur().raw());
     vcover!("same start, different move", !want && m1.len() == 1 && m2.len() == 1 && m1.outcome == m2.outcome && m1.start().raw() == m2.start().raw());
     core::mem::forget(c1);
